@@ -19,12 +19,10 @@
 package main
 
 import (
-	"bytes"
 	"flag"
 	"fmt"
 	"go/ast"
 	"go/parser"
-	"go/printer"
 	"go/token"
 	"os"
 	"path/filepath"
@@ -38,12 +36,36 @@ func die(f string, a ...any) {
 	os.Exit(1)
 }
 
+// src: text of the node in the normal form of astnorm_gen.go (blanks collapsed, function-local
+// identifiers under canonical names v<k>)
 func src(n ast.Node) string {
-	var b bytes.Buffer
-	if err := printer.Fprint(&b, fset, n); err != nil {
-		die("cannot print a node: %v", err)
+	return CanonPrint(fset, n)
+}
+
+// isErrorVar: the identifier is, by its declaration, an error value — a result declared with type
+// `error`, or the LAST variable on the left of an assignment from a single call (`a, x := f()`)
+func isErrorVar(id *ast.Ident) bool {
+	if id.Obj == nil {
+		return false
 	}
-	return strings.Join(strings.Fields(b.String()), " ")
+	switch d := id.Obj.Decl.(type) {
+	case *ast.Field:
+		t, ok := d.Type.(*ast.Ident)
+		return ok && t.Name == "error"
+	case *ast.ValueSpec:
+		t, ok := d.Type.(*ast.Ident)
+		return ok && t.Name == "error"
+	case *ast.AssignStmt:
+		if len(d.Rhs) != 1 {
+			return false
+		}
+		if _, ok := d.Rhs[0].(*ast.CallExpr); !ok {
+			return false
+		}
+		last, ok := d.Lhs[len(d.Lhs)-1].(*ast.Ident)
+		return ok && last.Obj == id.Obj
+	}
+	return false
 }
 
 func recvName(fd *ast.FuncDecl) string {
@@ -87,7 +109,7 @@ func isErrPlumbing(s *ast.IfStmt) bool {
 	}
 	x, okx := be.X.(*ast.Ident)
 	y, oky := be.Y.(*ast.Ident)
-	if !okx || !oky || x.Name != "err" || y.Name != "nil" {
+	if !okx || !oky || !isErrorVar(x) || y.Name != "nil" {
 		return false
 	}
 	ret, ok := s.Body.List[0].(*ast.ReturnStmt)
@@ -98,7 +120,7 @@ func isErrPlumbing(s *ast.IfStmt) bool {
 		return true // named results: `return` hands back err
 	}
 	last := ret.Results[len(ret.Results)-1]
-	if id, ok := last.(*ast.Ident); ok && id.Name == "err" {
+	if id, ok := last.(*ast.Ident); ok && id.Obj == x.Obj {
 		return true
 	}
 	if c, ok := last.(*ast.CallExpr); ok && src(c.Fun) == "fmt.Errorf" {
@@ -258,10 +280,11 @@ func main() {
 		f := files[t.file]
 		if f == nil {
 			var err error
-			f, err = parser.ParseFile(fset, filepath.Join(*repo, t.file), nil, parser.SkipObjectResolution)
+			f, err = parser.ParseFile(fset, filepath.Join(*repo, t.file), nil, 0)
 			if err != nil {
 				die("cannot parse %s: %v", t.file, err)
 			}
+			NormalizeFile(fset, f, AllNorm)
 			files[t.file] = f
 		}
 		fd := find(f, t.recv, t.name)
